@@ -362,7 +362,12 @@ def run(tier, seed, t0):
     stats['harness_process_deaths'] = deaths_total
     stats['machine_on_the_two_classic_mistakes'] = full
     stats['distinct_nontrivial'] = len(set((op, tuple(args)) for _, op, args, tot in cases if tot > 0))
-    stats['traces_validated_against_impl'] = len(cases) * len(exes)
+    # the flat machine is the extracted ArrayGuard.deserialize; a nested array is two runs of it composed by the driver
+    # (ocaml/ops_array.ml: nest) - no Coq definition and no theorem of its own, so those cases count as judged by the
+    # implementation-only oracle plus a driver-side composition, not as validation of the proved model
+    flat = sum(1 for _, op, _, _ in cases if op == 'arr')
+    stats['traces_validated_against_impl'] = flat * len(exes)
+    stats['nested_cases_judged_by_oracle_and_composed_machine'] = (len(cases) - flat) * len(exes)
     stats['rule'] = ('for every length N in 0..16 and 17,31,32,33,64 and every nested shape: all-success (with and without leftover input), '
                      'every failing position j<N x {error, panic} (with and without a second failure behind it), end of input at every j<N; '
                      'plus seeded random scripts; non-trivial = at least one element; every case is compared with the machine AND judged by the '
